@@ -22,11 +22,16 @@ CORPUS = [
      "ostale slow 6 7 0", "ostale up 7 0 0", "ostale up 8 6 6", "ostale up 9 8 8", "sync -"],
     # addUser of a user that exists in the cache answers 400 "User exists" (not a write): no alarm
     ["reset", "ostale t0 7 17 11", "sync -", "ostale t0 7 16 6"],
+    # round 3: a restart keeps the cache; a primary that answers reads with errors; truthful fromCache labels
+    ["reset", "add 1 7", "ssave 1 1 9 5500", "sync -", "restart", "outage down 2 4", "sync -", "restart", "sync 3 pre", "restart"],
+    ["reset", "ostale rerr 1 0 7", "ostale rerr 2 7 2", "outage rerr 3 6", "label 4 0 7", "label 5 7 2", "sync -"],
+    # label: the primary-only user of an earlier op is meanwhile cached (rows compared as they are now)
+    ["reset", "ostale rerr 8 21 15", "sync -", "label 8 17 5", "label 8 5 17"],
     ["reset", "flap mgU2F 1 7", "flap genTOTP 2 2", "flap addUser 3 0", "flap deleteUser 4 5", "sync -"],
 ]
 OFFS = [-4500, 5500, 5500, 20500, 100500]
 TICKS = [7000, 30000]
-MODES = ["t0", "slow", "down"]
+MODES = ["t0", "slow", "down", "rerr"]
 U2F_PIDS = [p for p in range(24) if p % 8 in (1, 4, 5, 7)]
 
 
@@ -43,8 +48,10 @@ def gen_history(rng, length, heavy):
             ops.append("ssave %d %d %d %d" % (u, rng.randint(1, 2), rng.randint(1, 99), rng.choice(OFFS)))
         elif r < 0.60:
             ops.append("sdel %d %d" % (u, rng.randint(1, 2)))
-        elif r < 0.65:
+        elif r < 0.63:
             ops.append("tick %d" % rng.choice(TICKS))
+        elif r < 0.65:
+            ops.append("restart")
         elif r < 0.78:
             ops.append("sync -")
         elif r < 0.87:
@@ -58,7 +65,10 @@ def gen_history(rng, length, heavy):
             old = rng.choice([0, 0, 8, 16]) if rng.random() < 0.5 else rng.randint(0, 23)
             ops.append("ostale %s %d %d %d" % (rng.choice(MODES), rng.randint(6, 8), old, rng.randint(0, 23)))
         elif r < 0.95 + heavy * 0.8:
-            ops.append("stale %s %d %d %d" % (rng.choice(MODES), rng.randint(6, 8), rng.choice(U2F_PIDS), rng.randint(0, 23)))
+            ops.append("stale %s %d %d %d" % (rng.choice(MODES[:3]), rng.randint(6, 8), rng.choice(U2F_PIDS), rng.randint(0, 23)))
+        elif r < 0.95 + heavy * 0.9:
+            a, b = rng.sample(range(24), 2)
+            ops.append("label %d %d %d" % (rng.randint(6, 8), a, b))
         elif r < 0.95 + heavy:
             route = rng.choice(["mgU2F", "genTOTP", "addUser", "deleteUser"])
             ops.append("flap %s %d %d" % (route, rng.randint(6, 8), rng.choice(U2F_PIDS) if route == "mgU2F" else rng.randint(0, 23)))
@@ -85,7 +95,31 @@ def canon(line):
         return "ok sanity | " + line.split(" | ")[-1]
     if line.startswith("ok flap"):
         return "ok flap | " + line.split(" | ")[-1]
+    if line.startswith("ok label"):
+        return "ok label | " + line.split(" | ")[-1]
     return line
+
+
+AUTH_ROUTES = ("login", "authTOTP", "u2fSignReq", "waAuthBegin", "waAuthFinish")
+
+
+def canon_rerr(op, line):
+    """flapping primary (reads answer with an error): which answer a route gives is not prescribed, only that
+    nothing is written — compare with the model on that level"""
+    f = op.split()
+    if f[0] not in ("outage", "ostale") or f[1] != "rerr" or not line.startswith("ok unchanged="):
+        return line
+    head, rest = line.split(" | ", 1)
+    toks = []
+    for t in head.split():
+        if "=" in t:
+            name, v = t.split("=", 1)
+            if name in AUTH_ROUTES:
+                t = name + "=any"
+            elif name not in ("unchanged", "mails", "deleteUser") and v in ("failed", "refused", "400"):
+                t = name + "=nowrite"
+        toks.append(t)
+    return " ".join(toks) + " | " + rest
 
 
 def judge_ops(hist, impl):
@@ -120,6 +154,13 @@ def judge_ops(hist, impl):
         if f[0] in ("outage", "ostale") and f[1] != "up" and line.startswith("ok unchanged="):
             toks = line.split(" | ")[0].split()[1:]
             out.append((i, "outage %s %s" % (f[1], " ".join(toks)), ("outage-" if f[0] == "outage" else "outage-stale-cache-") + f[1]))
+        if f[0] in ("add", "del", "ssave", "sdel") and cc is not None and prev_c is not None:
+            out.append((i, "cachesame %s %s" % (prev_c, cc), "cache-changed-outside-sync"))
+        if f[0] == "restart" and cc is not None and prev_c is not None:
+            # after a restart the cache holds what it held (or, should start-up synchronise, the primary's content)
+            out.append((i, "atomic %s %s %s" % (prev_c, p, cc), "restart-keeps-cache"))
+        if f[0] == "label" and line.startswith("ok label"):
+            out.append((i, "label " + " ".join(line.split(" | ")[0].split()[2:]), "fromCache-label"))
         if f[0] == "flap" and line.startswith("ok flap"):
             out.append((i, "flap " + " ".join(line.split(" | ")[0].split()[3:]), "outage-mid-request"))
         if f[0] == "stale" and line.startswith("ok begin="):
@@ -178,7 +219,7 @@ def run(ctx):
         rp = json.load(open(ctx.replay))
         hists = [v["replay"]["history"] for v in rp.get("violations", []) if "history" in v.get("replay", {})] or CORPUS
     else:
-        n, length, heavy = (26, 22, 0.03) if ctx.quick() else (300, 40, 0.05)
+        n, length, heavy = (26, 22, 0.03) if ctx.quick() else (220, 40, 0.05)
         hists = [list(h) for h in CORPUS] + [gen_history(ctx.rng, ctx.rng.randint(length // 2, length), heavy) for _ in range(n)]
     res = run_histories(ctx, hists, "h")
     if res is None:
@@ -187,7 +228,7 @@ def run(ctx):
     impl = [l for r in res for l in r["impl"]]
     model = [l for r in res for l in r["model"]]
     c.diff_streams(ctx, "storage.go (Save/Load/Delete/UpsertSigned/DeleteSigned/copyDBIntoSQLite, handlers in an outage) vs KM.Storage",
-                   ops, impl, model, canon=canon)
+                   ops, [canon_rerr(o, l) for o, l in zip(ops, impl)], model, canon=canon)
     # sanity of the outage matrix: with the primary reachable the same requests reach the storage code
     reached_up = set()
     for o, l in zip(ops, impl):
@@ -233,6 +274,7 @@ def run(ctx):
     profile_kinds = collections.Counter()
     outage_tokens = collections.Counter()
     flap_points = collections.Counter()
+    label_points = collections.Counter()
     for r in res:
         prev_c = None
         for i, (o, l) in enumerate(zip(r["hist"], r["impl"])):
@@ -262,6 +304,10 @@ def run(ctx):
             if f[0] == "sync" and f[1] != "-" and l.split()[0] == "err":
                 fault_outcome["previous" if cc == prev_c else "new"] += 1
                 nontrivial.add(("fault", prev_c, p, f[1], f[2]))
+            if f[0] == "label":
+                for t in l.split(" | ")[0].split()[2:]:
+                    pt, ans = t.split(":")
+                    label_points[re.sub(r"^([fd])\d+$", r"\1", pt.split("/")[0]) + "/" + pt.split("/")[1] + ":" + ans] += 1
             if f[0] == "flap":
                 for t in l.split(" | ")[0].split()[3:]:
                     flap_points[f[1] + ":" + ":".join(t.split(":")[1:3])] += 1
@@ -284,6 +330,8 @@ def run(ctx):
         "profile_kinds_saved": dict(profile_kinds), "outage_answers": dict(outage_tokens),
         "routes_answering_ok_with_primary_up": sorted(reached_up),
         "outage_mid_request_points": dict(flap_points),
+        "fromCache_label_points": dict(label_points),
+        "init_stmts": [x["lean"] for x in facts.get("c15_init_stmts", [])],
         "sync_sites": [s["lean"] for s in facts.get("c15_sync_sites", [])],
         "guard_table": {"%s/%s" % (g["func"], g["write"]): g["class"] for g in facts.get("c15_guard_table", [])},
         "samples": [{"op": o, "impl": l[:400]} for o, l in list(zip(ops, impl))[1:7]],
